@@ -28,6 +28,20 @@ Theorem C11_run_history_independent_any_solver :
 Proof. exact run_history_independent_any_solver. Qed.
 Print Assumptions C11_run_history_independent_any_solver.
 
+(* ... and the two statements that follow, likewise without the hypothesis on the solvers of the history *)
+Theorem C11_repeatable_any_solver :
+  forall (O : NumOps) (m : model) s cs1 cs2 p rb1 rb2,
+    current_defaults (m_defaults m) cs1 = current_defaults (m_defaults m) (cs1 ++ cs2) ->
+    snd (step O (fst (steps O (init_api O m) cs1)) (CRun p s rb1)) =
+    snd (step O (fst (steps O (init_api O m) (cs1 ++ cs2))) (CRun p s rb2)).
+Proof. exact repeatable_any_solver. Qed.
+Print Assumptions C11_repeatable_any_solver.
+
+Theorem C11_definition_preserved_any_solver :
+  forall (O : NumOps) (m : model) cs, same_definition m (a_model (fst (steps O (init_api O m) cs))).
+Proof. exact definition_preserved_any_solver. Qed.
+Print Assumptions C11_definition_preserved_any_solver.
+
 (* the same call at two points of a history gives the same result *)
 Theorem C11_repeatable :
   forall (O : NumOps) (m : model) s cs1 cs2 p rb1 rb2,
